@@ -94,7 +94,8 @@ def _expected(C0, f0, target, attach, sid):
 
 
 STATES = [[7e6 * 0.6, 7e6 * 0.5, 7e6 * 0.62, -4.5e3, 5.5e3, 1.2e3], [4.2164e7, 0.0, 1.0e5, -10.0, 3.0746e3, 5.0], [-1.2e7, 1.9e7, 8.0e6, -2.9e3, -2.1e3, 2.4e3],
-          [6.9e6 * 0.1, -6.9e6 * 0.7, 6.9e6 * 0.7, 6.4e3, 2.2e3, 3.4e3]]
+          [6.9e6 * 0.1, -6.9e6 * 0.7, 6.9e6 * 0.7, 6.4e3, 2.2e3, 3.4e3],
+          [7e6 * 0.6, 7e6 * 0.5, 7e6 * 0.62, -5.5e3, -3.5e3, 2.2e3]]      # (the last one on the inbound half of an eccentric orbit: r.v < 0)
 
 
 def _real_setup(start, f0name, seed, state=0):
@@ -187,10 +188,10 @@ def _(c):
         n = c.choice("len", [1, 2, 3, 4, 5])
         f0name = c.choice("f0", [start, "ITRF", "QSW"])
         seq = [c.choice(f"t{i}", targets) for i in range(n)]
-        sv, C = _real_setup(start, start, c.integer("seed"))
+        sv, C = _real_setup(start, start, c.integer("seed"), state=(0, 4, 2)[(c.integer("copy") + c.integer("len")) % 3])
         # a second object first: ANOTHER state carrying the very same matrix in the same frame goes to the same targets before this one does (each covariance is rotated
         # onto the local axes of its OWN state: nothing may be remembered from one object to the next)
-        sv_b, _ = _real_setup(start, start, c.integer("seed"), state=1 + c.integer("copy_at") % 3)
+        sv_b, _ = _real_setup(start, start, c.integer("seed"), state=(1, 3, 4)[c.integer("copy_at") % 3])
         cov_b = Cov(sv_b, C, f0name if f0name in LOCALS else get_frame(f0name))
         for t in seq:
             cov_b.frame = t
